@@ -734,7 +734,11 @@ impl ImplWhereClause<'_, '_> {
                 );
 
                 if self.contains_async.0 {
-                    push_tokens!(stream, self.plus_send(), self.plus_sync());
+                    // (`?Send`: nothing asks the futures to be `Send`, nor `T` for their sake)
+                    if self.attr.opts.future_send().0 {
+                        push_tokens!(stream, self.plus_send());
+                    }
+                    push_tokens!(stream, self.plus_sync());
                 }
                 push_tokens!(stream, self.plus_static());
             }
@@ -749,7 +753,11 @@ impl ImplWhereClause<'_, '_> {
                 );
 
                 if self.contains_async.0 {
-                    push_tokens!(stream, self.plus_send(), self.plus_sync());
+                    // (`?Send`: nothing asks the futures to be `Send`, nor `T` for their sake)
+                    if self.attr.opts.future_send().0 {
+                        push_tokens!(stream, self.plus_send());
+                    }
+                    push_tokens!(stream, self.plus_sync());
                 }
                 push_tokens!(stream, self.plus_static());
             }
